@@ -140,9 +140,10 @@ def run(ctx):
     depths = list(range(0, 8))
     for entry_idx, entry in enumerate(ENTRIES):
         for depth in depths:
-            for ipy in ([None] if ctx.quick and depth not in (2, 5) else [None, "ipy"]):
+            # plan-building code compiled from a string (exec, doctest, notebook cells) has a "<...>" file name
+            for ipy in ([None] if ctx.quick and depth not in (2, 5) else [None, "angle"]):
                 src, uframes = gen_module(entry, depth)
-                path = "/ujgen/%s_%d%s.py" % (entry, depth, "/IPython/core/x" if False else "")
+                path = "/ujgen/%s_%d.py" % (entry, depth) if ipy is None else "<generated %s_%d>" % (entry, depth)
                 ns = {}
                 exec(compile(src, path, "exec"), ns)
                 plan, reg = uberjob.Plan(), uberjob.Registry()
@@ -180,7 +181,8 @@ def run(ctx):
                 expected = [n_internal, 1, 1 if trunc else 0, len(got)] + [x for fr in got for x in intern.frame(fr)]
                 stack_ids = [intern.frame(fr) for fr in real]
                 model_cases.append(("%s/%d" % (entry, depth), entry_idx, stack_ids, expected, "capture", None))
-                ctx.case((entry, depth, "capture"), sample={"entry": entry, "depth": depth, "captured": got, "truncated": trunc} if depth == 5 else None)
+                ctx.count("file_name_kind", "file" if ipy is None else "<...>")
+                ctx.case((entry, depth, "capture", ipy), sample={"entry": entry, "depth": depth, "captured": got, "truncated": trunc} if depth == 5 else None)
                 ctx.count("entry", entry)
                 ctx.count("depth", depth)
                 # rendering
@@ -201,7 +203,7 @@ def run(ctx):
                 for r in rl:
                     flat += [0] if r == "T" else [1, *intern.frame(r)]
                 model_cases.append(("%s/%d/render" % (entry, depth), entry_idx, stack_ids, flat, "render", []))
-                ctx.case((entry, depth, "render"))
+                ctx.case((entry, depth, "render", ipy))
 
     # IPython cut: frames at and beyond a path containing /IPython/core/ are not rendered
     for depth in (1, 3, 6):
@@ -295,6 +297,25 @@ def phases(ctx, uberjob, MemStore, Trunc, check_chain):
     except uberjob.CallError as e:
         lo = (inspect.currentframe().f_code.co_name, __file__, e.__traceback__.tb_lineno)
         expect("run/output-gather", "run_output", e, lambda c: c.fn.__name__ == "gather_set", lo)
+    # an IMPLICIT gather (a structured argument of plan.call / of unpack) fails at run time: the gather call is the failing
+    # call and its traceback starts at the user's plan.call / unpack line
+    from uberjob import _builtins
+    for shape in ("set-arg", "dict-key-kwarg", "nested-in-list", "unpack-of-structure"):
+        p = uberjob.Plan()
+        a = p.call(lambda: [1])
+        if shape == "set-arg":
+            b = p.call(ok, {a, 1}); lb = here(); want = _builtins.gather_set
+        elif shape == "dict-key-kwarg":
+            b = p.call(ok, x={a: 1}); lb = here(); want = _builtins.gather_dict
+        elif shape == "nested-in-list":
+            b = p.call(ok, [0, {a}]); lb = here(); want = _builtins.gather_set
+        else:
+            b = p.unpack(({a}, 2), 2)[0]; lb = here(); want = _builtins.gather_set
+        try:
+            uberjob.run(p, output=b, progress=None)
+            ctx.broke("C19 harness: implicit gather scenario did not fail", shape)
+        except uberjob.CallError as e:
+            expect("run/implicit-gather/" + shape, "implicit_gather", e, lambda c: c.fn is want, lb)
     # store write fails
     for fail, tag in (("write", "run/store-write"), ("read", "run/store-read-back")):
         p, r = uberjob.Plan(), uberjob.Registry()
